@@ -48,6 +48,9 @@ type aEvent struct {
 	CreateOK bool
 	BadX     int
 	BadY     int
+	JumpMin  int      // absolute wall-clock jump target (minute of day), with Dt == -1
+	JumpK    int
+	BZ       int      // number of border pixels set to zero (must not matter)
 	FFC      bool     // an FFC happens just before this frame
 	Pix      [][]uint16 // explicit content (detector-focused scenarios); nil → generated
 	Tel      *zz.Tel
@@ -207,8 +210,8 @@ func genRecScenario(r *verifsim.Run, focus string) *aScenario {
 						b = c.WinStop
 					}
 					e.Dt = -1 // marker: absolute jump, resolved at execution
-					e.BadX = b
-					e.BadY = r.Range(0, 3)
+					e.JumpMin = b
+					e.JumpK = r.Range(0, 3)
 				default:
 					e.Dt = time.Duration(r.Range(0, 120)) * time.Second
 				}
@@ -243,11 +246,13 @@ type aWorld struct {
 	upMs   uint32
 	lastFFCMs uint32
 	sent   map[int][][]uint16
+	kind   map[int]byte
+	tels   map[int]zz.Tel
 }
 
 func newAWorld(sc *aScenario, opt aOpts) *aWorld {
 	c := &sc.Cfg
-	w := &aWorld{sc: sc, tr: &zz.Trace{}, cam: zz.Cam{W: c.W, H: c.H, Fps: c.Fps}, clock: &zz.SimClock{T: sc.Start}, sent: map[int][][]uint16{}}
+	w := &aWorld{sc: sc, tr: &zz.Trace{}, cam: zz.Cam{W: c.W, H: c.H, Fps: c.Fps}, clock: &zz.SimClock{T: sc.Start}, sent: map[int][][]uint16{}, kind: map[int]byte{}, tels: map[int]zz.Tel{}}
 	w.win = zz.WinModel{NoWindow: c.NoWindow, StartMin: c.WinStart, StopMin: c.WinStop}
 	var win *window.Window
 	var err error
@@ -307,6 +312,17 @@ func (w *aWorld) scene(e *aEvent) [][]uint16 {
 	return p
 }
 
+func (w *aWorld) advanceClock(e *aEvent) {
+	if e.Dt == -1 {
+		// absolute jump: to JumpK frame periods before boundary JumpMin on the current day
+		t := w.clock.T
+		day := time.Date(t.Year(), t.Month(), t.Day(), 0, 0, 0, 0, time.UTC)
+		w.clock.T = day.Add(time.Duration(e.JumpMin)*time.Minute - time.Duration(e.JumpK)*time.Second/time.Duration(w.sc.Cfg.Fps))
+	} else {
+		w.clock.Advance(e.Dt)
+	}
+}
+
 func (w *aWorld) exec(opt aOpts) *zz.Trace {
 	c := &w.sc.Cfg
 	period := uint32(1000 / c.Fps)
@@ -314,23 +330,21 @@ func (w *aWorld) exec(opt aOpts) *zz.Trace {
 	for i := range w.sc.Ev {
 		e := &w.sc.Ev[i]
 		if i == opt.SkipEv {
+			w.advanceClock(e)
 			if e.Kind == 'F' || e.Kind == 'B' {
+				w.scene(e) // the scene evolves whether or not the frame is delivered
 				w.nextID++
 				w.upMs += period
+				if e.FFC {
+					w.lastFFCMs = w.upMs
+				}
 			}
 			continue
 		}
 		if e.Kind == 'T' && opt.NoTest {
 			continue
 		}
-		if e.Dt == -1 {
-			// absolute jump: to BadY frame periods before boundary BadX on the current day
-			t := w.clock.T
-			day := time.Date(t.Year(), t.Month(), t.Day(), 0, 0, 0, 0, time.UTC)
-			w.clock.T = day.Add(time.Duration(e.BadX)*time.Minute - time.Duration(e.BadY)*time.Second/time.Duration(c.Fps))
-		} else {
-			w.clock.Advance(e.Dt)
-		}
+		w.advanceClock(e)
 		open, edge := w.win.At(w.clock.T)
 		ev := w.tr.Begin(zz.Event{Kind: e.Kind, ID: -1, Ord: -1, WinOpen: open, WinEdge: edge, DiskOK: e.DiskOK, CreateOK: e.CreateOK})
 		func() {
@@ -348,11 +362,29 @@ func (w *aWorld) exec(opt aOpts) *zz.Trace {
 					w.lastFFCMs = w.upMs
 				}
 				pix := w.scene(e)
-				if e.Kind == 'B' {
+				if e.Kind == 'B' || e.BZ > 0 {
 					pix = zz.ClonePix(pix)
+				}
+				if e.Kind == 'B' {
 					pix[e.BadY][e.BadX] = 0
 				}
-				tel := zz.Tel{TimeOnMs: w.upMs, LastFFCMs: w.lastFFCMs, FrameCount: uint32(id), FPATemp: 30000, FPATempFFC: 29900, Noise: uint16(id)}
+				for k := 0; k < e.BZ && c.Edge > 0; k++ {
+					// zero pixels in the border only: rows/columns < edge or >= size-edge
+					h := verifsim.Mix(uint64(id), uint64(k))
+					switch h % 4 {
+					case 0:
+						pix[int(h>>8)%c.Edge][int(h>>16)%c.W] = 0
+					case 1:
+						pix[c.H-1-int(h>>8)%c.Edge][int(h>>16)%c.W] = 0
+					case 2:
+						pix[int(h>>16)%c.H][int(h>>8)%c.Edge] = 0
+					default:
+						pix[int(h>>16)%c.H][c.W-1-int(h>>8)%c.Edge] = 0
+					}
+				}
+				hh := verifsim.Mix(uint64(id), uint64(w.sc.Start.Unix()))
+				tel := zz.Tel{TimeOnMs: w.upMs, LastFFCMs: w.lastFFCMs, FrameCount: uint32(id), FPATemp: uint16(27000 + hh%6000), FPATempFFC: uint16(27000 + (hh>>16)%6000),
+					FrameMean: uint16(hh >> 32), StatusBits: uint32(hh>>40) &^ 0x30, Noise: uint16(hh >> 48)}
 				if e.Tel != nil {
 					tel = *e.Tel
 					tel.FrameCount = uint32(id)
@@ -361,6 +393,8 @@ func (w *aWorld) exec(opt aOpts) *zz.Trace {
 				ev.Sum = zz.SumPix(pix)
 				ev.FFC = tel.TimeOn()-tel.LastFFCTime() < 10*time.Second
 				w.sent[id] = pix
+				w.kind[id] = e.Kind
+				w.tels[id] = tel
 				zz.PutLeptonTelemetry(raw, tel)
 				zz.PutLeptonPixels(raw, pix)
 				err := w.mp.Process(raw)
